@@ -6,6 +6,7 @@ from .. import comp, e1, gen, harness, probes
 from . import base
 
 PROP = "C04"
+SOLVER = {'functions_encoded': ['register_assignment.assign_registers (executed, its virtual and physical listings captured)', 'emitted IC10 -> vf.ic10.Machine with shadow registers']}
 HDR = base.witness.HDR
 
 ASSUMPTIONS = [
